@@ -23,6 +23,15 @@ func main() { common.Main("C04", runC04) }
 // canonical rendering of the recorded defect D11 (UIDVALIDITY generator state lives in memory only)
 const canonD11 = "uidvalidity-not-greater after-restart previous-value-ahead-of-clock"
 
+// canonical rendering of the recorded finding: a message the connector created from a literal that already carries an
+// X-Pm-Gluon-Id (of another gluon instance) is stored with gluon's id in front of the foreign one; applyMessageUpdated puts
+// the internal id into the update literal only when it has none, so the comparison with the literal on disk never
+// succeeds and every MessageUpdated - a pure flag refresh too - gives the message a new UID
+const canonForeignID = `uid-vanished-without-expunge: connector literal with a foreign gluon id [connmsgs(L6>INBOX); connupdate(INBOX:1,same-literal,(\Seen)>INBOX)]`
+
+// foreignIDLiteral is literal 6 of the table of the scenario foreign-gluon-id only (the generated histories use 0..5).
+const foreignIDLiteral = "X-Pm-Gluon-Id: 11111111-2222-3333-4444-555555555555\r\nDate: Mon, 01 Jan 2024 10:00:00 +0000\r\nFrom: a@example.com\r\nTo: b@example.com\r\nSubject: exported by another gluon\r\nMessage-Id: <foreign.id@example.com>\r\n\r\nbody\r\n"
+
 // canonical rendering of the proposed finding: RENAME keeps the UIDVALIDITY of the renamed mailbox also when the new name
 // was used before by a mailbox with a greater (or the same) value
 const canonRename = "uidvalidity-not-greater name-taken-over-by-RENAME keeps-the-renamed-mailbox's-value"
@@ -619,6 +628,70 @@ func runC04(ctx *common.Ctx) error {
 		{Kind: "expunge", Name: "INBOX", UIDs: []int{5}, RemoteOK: true}, repl("INBOX", 4, 1, "INBOX", "a"), upd("a", 3, "", "a"), {Kind: "restart"},
 		repl("a", 3, 2), app("a", 2), app("INBOX", 2)}); err != nil {
 		return err
+	}
+	// the connector creates a message whose literal already carries an X-Pm-Gluon-Id and then refreshes it (same literal,
+	// \Seen): the UID must stay. Oracle only (the model has no header handling). Recorded finding: only the exact symptom -
+	// the one row of INBOX reappears with the same bytes under the next UID, nothing else differs - gets the finding's
+	// canonical; anything else that goes wrong here is reported under its own kind with the history.
+	{
+		id++
+		ops := []mstore.Op{{Kind: "connmsgs", Batch: []mstore.BatchMsg{{Lit: nlits, Mboxes: []string{"INBOX"}}}},
+			{Kind: "connupdate", Name: "INBOX", UIDs: []int{1}, Flags: `\Seen`, Names: []string{"INBOX"}},
+			{Kind: "connupdate", Name: "INBOX", UIDs: []int{1}, Flags: "", Names: []string{"INBOX"}},
+			app("INBOX", 0)}
+		cs := &c04Case{ID: id, Burn: 20, Step: 60, Ops: ops}
+		ctx.Current("foreign-gluon-id ["+mstore.OpsString(ops)+"]", cs)
+		lits := newLits(nlits)
+		lits.AddRaw(nlits, foreignIDLiteral)
+		w, err := mstore.NewWorld(mstore.Config{Burn: 20, BurnStep: 60}, lits)
+		if err != nil {
+			return err
+		}
+		or := newOracle()
+		clock := int(time.Since(w.Epoch).Seconds())
+		sent := 0
+		var viol *violation
+		known := false
+		_, _, err = mstore.Replay(w, ops, func(i int, o mstore.Op, ob mstore.Obs, before, aft mstore.Dump) bool {
+			vs := or.observe(o, ob, before, aft, clock)
+			clock = int(time.Since(w.Epoch).Seconds())
+			res.Evaluations++
+			if o.Kind == "connupdate" && !ob.Skipped {
+				sent++
+			}
+			if ob.Class == "other" {
+				vs = append(vs, violation{Kind: "unexpected-response", Detail: o.String() + ": " + ob.Text})
+			}
+			if len(vs) == 0 {
+				return true
+			}
+			viol = &vs[0]
+			b, a := before.Get("INBOX"), aft.Get("INBOX")
+			exact := i == 1 && o.Kind == "connupdate" && !ob.Skipped && ob.Class == "ok" && b != nil && a != nil && len(before.Mboxes) == len(aft.Mboxes) &&
+				len(b.Rows) == 1 && len(a.Rows) == 1 && b.Rows[0].UID == 1 && b.UIDNext == 2 && a.Rows[0].UID == 2 && a.UIDNext == 3 &&
+				a.UIDV == b.UIDV && a.Rows[0].Lit == nlits && b.Rows[0].Lit == nlits
+			for _, v := range vs {
+				exact = exact && (v.Kind == "uid-vanished-without-expunge" || v.Kind == "message-updated-refresh-changed-uids")
+			}
+			known = exact
+			return false
+		})
+		w.Close()
+		if what, ok := mstore.AsProbe(err); ok {
+			viol, known = &violation{Kind: "mailbox-unreadable", Detail: what}, false
+		} else if err != nil {
+			return fmt.Errorf("foreign-gluon-id: %w", err)
+		}
+		switch {
+		case viol != nil && known:
+			res.Fail(canonForeignID, viol.Detail+" | UID 1 -> UID 2, UIDNEXT 2 -> 3, same bytes", cs)
+		case viol != nil:
+			res.Fail(viol.Kind+" [foreign-gluon-id: "+mstore.OpsString(ops)+"]", viol.Detail, cs)
+		case sent != 2:
+			return fmt.Errorf("foreign-gluon-id: %d of 2 MessageUpdated were sent (the remote message of the row was not found)", sent)
+		}
+		res.Nontrivial("foreign-gluon-id")
+		res.Count("scenario:foreign-gluon-id")
 	}
 	// MOVE from a snapshot that still shows a message another session has expunged meanwhile (oracle only: the model
 	// has no stale snapshots): both UID sets of COPYUID must describe the messages that were moved
